@@ -631,7 +631,7 @@ namespace BitSerializer::Convert::Detail
 						{
 							constexpr uint64_t maxI64Negative = 9223372036854775808u;
 							if (value <= maxI64Negative) {
-								SafeAddDuration(duration, transformToDuration(-static_cast<int64_t>(value), sym, isDatePart));
+								SafeAddDuration(duration, transformToDuration(static_cast<int64_t>(0u - value), sym, isDatePart));
 							}
 							else {
 								throw std::out_of_range("ISO duration contains too big number");
